@@ -232,6 +232,7 @@ PROPS['C19'] = dict(
     trace=dict(module='Trace_Readers', cfg='Trace_Readers.cfg'), builds=['race'],
     mc=dict(quick=[mc('Readers', 'MC_Readers.cfg'), mc('Readers', 'MC_Readers_buggy.cfg', expect_violation='MemUnchanged')],
             thorough=[mc('Readers', 'MC_Readers.cfg'), mc('Readers', 'MC_Readers_buggy.cfg', expect_violation='MemUnchanged')]),
+    tlaps=dict(quick=[dict(module='ReadersProof')], thorough=[dict(module='ReadersProof', refute='ReadersProofBad')]),
     need_kinds=['conc'], confirm_retries=4, trust_kinds=['RaceReport'], shards=dict(quick=4, thorough=8),
     rule='a case is one set of shared inputs (bitmaps, rank/select indexes, keys, a shared SigBits object, plain and encoded bit strings, paths, level masks) built from a seed; in a -race build 8 goroutines released together '
          'each run the whole list of 30 calls (Rank64/128, Select32/R64, NextOne/PrevOne, Slice aligned and unaligned, ToArray, indexes, Join/Getw, Get*, FromStr32, PathsOf, PathToIndex/Loose, IndexToPath, path accessors, '
